@@ -92,12 +92,12 @@ type hC02Time struct {
 // nanoseconds are a concretised choice among boundary values while the seconds stay fully symbolic.
 var hC02Nsecs = []int64{0, 1, 999999999, 500000000}
 
-func hC02SymTime(name string, lo, hi int64) hC02Time {
+func hC02SymTime(name string, lo, hi int64, nsecs int) hC02Time {
 	vTag(name + ".sec")
 	s := vI64()
 	vAssume(s >= lo && s <= hi)
 	vTag(name + ".nsec")
-	n := hC02Nsecs[vChoice(vParam("nsecs", 3))]
+	n := hC02Nsecs[vChoice(nsecs)]
 	return hC02Time{t: time.Unix(s, n), sec: s, nsec: n}
 }
 
@@ -134,11 +134,11 @@ func H02a() {
 	hasCreated, hasExpires := vBool(), vBool()
 	var created, expires hC02Time
 	if hasCreated {
-		created = hC02SymTime("created", int64(vParam("minunix", hC02MinUnix)), hC02MaxUnix)
+		created = hC02SymTime("created", int64(vParam("a_minunix", hC02MinUnix)), hC02MaxUnix, vParam("a_nsecs", 3))
 		p.Created = created.t
 	}
 	if hasExpires {
-		expires = hC02SymTime("expires", int64(vParam("minunix", hC02MinUnix)), hC02MaxUnix)
+		expires = hC02SymTime("expires", int64(vParam("a_minunix", hC02MinUnix)), hC02MaxUnix, vParam("a_nsecs", 3))
 		p.Expires = &expires.t
 	}
 	nproofs := vLen(0, 2)
@@ -164,8 +164,8 @@ func H02a() {
 
 func H02a_twin() {
 	var p proof.LDProof
-	created := hC02SymTime("created", 1700000000, 1700000100)
-	expires := hC02SymTime("expires", 1700000000, 1700000100)
+	created := hC02SymTime("created", 1700000000, 1700000100, 1)
+	expires := hC02SymTime("expires", 1700000000, 1700000100, 1)
 	p.Created = created.t
 	p.Expires = &expires.t
 	if validateS2SPresentationMaxValidity(hC02LdVP(p)) == nil && expires.sec == created.sec+5 {
